@@ -247,7 +247,7 @@ def K(ns, obj=None):
 # ---------------------------------------------------------------------------
 # CBC (SP 800-38A 6.2):  C_j = E(P_j xor C_{j-1}),  C_{-1} = IV
 
-CbcC = S.uf('CbcC', [Val, Seq, Seq, I], Seq)        # key, IV, plaintext, block index (>= -1) -> ciphertext block
+CbcC = S.uf('CbcC', [Val, Seq, Seq, I], Seq, seq_ext=[1, 2])   # key, IV, plaintext, block index (>= -1) -> ciphertext block
 
 
 def _cbc_axioms():
@@ -932,14 +932,14 @@ def _ccm_setup(ex, st, ns):
     st.heap[(rb.oid, 'k')] = st.heap[(rc.oid, 'k')]
 
 
+def _padlen(n, size):
+    return VInt(z3.If(n.t % size.t == 0, 0, size.t - n.t % size.t))
+
+
 def pad16(x):
     """x zero-padded on the right to a multiple of 16 bytes (VSeq)"""
     n = S.len_(x)
-    return S.cat(x, S.rep(0, (16 - n % 16) % 16))
-
-
-def _padlen(n, size):
-    return VInt(z3.If(n.t % size.t == 0, 0, size.t - n.t % size.t))
+    return S.cat(x, S.rep(0, _padlen(n, VInt(16))))
 
 
 def _pad_apply(c, ex, args, kwargs, st, fr, node):
@@ -972,7 +972,7 @@ def ccm_flags(M, adata, L=3):
 
 
 def ccm_b0(M, nonce, aad, msg):
-    return S.cat(S.byte(ccm_flags(M, S.len_(aad) > 0)), nonce, S.be(S.len_(msg), 3))
+    return S.cat(S.byte(ccm_flags(M, S.len_(aad) > 0)), nonce, S.be_n(S.len_(msg), 3))
 
 
 def ccm_blocks_cases(M, nonce, aad, msg):
@@ -981,9 +981,9 @@ def ccm_blocks_cases(M, nonce, aad, msg):
     la = S.len_(aad)
     b0 = ccm_b0(M, nonce, aad, msg)
     encs = [(la == 0, S.empty()),
-            ((la > 0) & (la < 0xFF00), S.be(la, 2)),
-            ((la >= 0xFF00) & (la < (1 << 32)), S.cat([0xFF, 0xFE], S.be(la, 4))),
-            (la >= (1 << 32), S.cat([0xFF, 0xFF], S.be(la, 8)))]
+            ((la > 0) & (la < 0xFF00), S.be_n(la, 2)),
+            ((la >= 0xFF00) & (la < (1 << 32)), S.cat([0xFF, 0xFE], S.be_n(la, 4))),
+            (la >= (1 << 32), S.cat([0xFF, 0xFF], S.be_n(la, 8)))]
     out = []
     for cond, enc in encs:
         head = pad16(S.cat(b0, enc, aad))
